@@ -51,9 +51,14 @@ def generic_main(mod, modname, pid, tier, seed, repo, t0):
     if len(tasks) > 2:
         step = max(1, len(tasks) // max(1, n_x))
         xs |= set(range(0, len(tasks), step))
+    import tempfile
+    dump_dir = tempfile.mkdtemp(prefix=f"symx_smt_{pid}_")
+    dump_idx = set(range(0, len(tasks), max(1, len(tasks) // 6)))
     jobs = []
     for i, p in enumerate(tasks):
         o = dict(opts_base)
+        if i in dump_idx:
+            o["dump_dir"] = dump_dir
         o["canary"] = i < n_canary or p.get("canary", False)
         o["xcheck"] = i in xs
         o["profile"] = i < 2
@@ -81,10 +86,47 @@ def generic_main(mod, modname, pid, tier, seed, repo, t0):
                 pool.terminate()
                 break
             results.append(r)
-    return finish(mod, modname, pid, tier, seed, repo, t0, results, skipped, heavy, len(jobs))
+    cross = cross_solver(dump_dir, pid)
+    return finish(mod, modname, pid, tier, seed, repo, t0, results, skipped, heavy, len(jobs), extra_cov={"cross_solver_cvc5": cross},
+                  force_harness_error=cross["disagree"] > 0)
 
 
-def finish(mod, modname, pid, tier, seed, repo, t0, results, skipped, heavy, n_jobs, extra_cov=None):
+def cross_solver(dump_dir, pid, limit=16, timeout=30):
+    """Second opinion: a sample of this run's non-FP obligations (SMT-LIB2 as handed to z3) is re-decided by the cvc5 binary."""
+    import glob
+    import shutil
+    import subprocess
+    res = {"checked": 0, "agree": 0, "disagree": 0, "inconclusive": 0, "solver": "cvc5 binary on PATH"}
+    exe = shutil.which("cvc5")
+    files = sorted(glob.glob(os.path.join(dump_dir, "*.smt2")))[:limit]
+    try:
+        if exe is None:
+            res["solver"] = "cvc5 not found"
+            return res
+        for fn in files:
+            first = open(fn).readline()
+            want = "unsat" if "z3=unsat" in first else "sat"
+            try:
+                p = subprocess.run([exe, fn], capture_output=True, text=True, timeout=timeout)
+                got = (p.stdout.strip().splitlines() or ["?"])[0]
+                if "(error" in p.stdout or "(error" in p.stderr:
+                    got = "error"
+            except subprocess.TimeoutExpired:
+                got = "timeout"
+            res["checked"] += 1
+            if got == want:
+                res["agree"] += 1
+            elif got in ("sat", "unsat"):
+                res["disagree"] += 1
+                log(f"[{pid}] SOLVER DISAGREEMENT z3={want} cvc5={got}: {first.strip()}")
+            else:
+                res["inconclusive"] += 1
+    finally:
+        shutil.rmtree(dump_dir, ignore_errors=True)
+    return res
+
+
+def finish(mod, modname, pid, tier, seed, repo, t0, results, skipped, heavy, n_jobs, extra_cov=None, force_harness_error=False):
     herr = [r for r in results if r.get("harness_error")]
     for r in herr[:5]:
         log(f"[{pid}] HARNESS ERROR in task {r.get('key')}: {r['harness_error']}\n{r.get('traceback', '')}")
@@ -197,7 +239,7 @@ def finish(mod, modname, pid, tier, seed, repo, t0, results, skipped, heavy, n_j
     finally:
         if srv:
             srv.close()
-    if herr:
+    if herr or force_harness_error:
         status = EXIT_HARNESS if status == EXIT_OK else status
     wall = time.time() - t0
     slow = sorted(((r.get("wall_s", 0), r.get("key")) for r in results), reverse=True)[:5]
